@@ -51,6 +51,13 @@ def _replay_other(v):
             print("VIOLATION-AGAIN", sig, msg[:400])
         print("history", v["history"], "->", len(found), "violations")
         return 1 if found else 0
+    if "program" in v and str(v.get("signature", "")).startswith("C12:S:"):   # C12 client schedules
+        from vf.checks import c12s
+        found = c12s.replay(v)
+        for sig, msg in found:
+            print("VIOLATION-AGAIN", sig, msg[:500])
+        print("program", v["program"], "choices", v["prefix"], "->", len(found), "violations")
+        return 1 if found else 0
     if "harness" in v and "choices" in v:                  # C14
         from vf.checks import c14
         from vf import c14engine as E
